@@ -77,7 +77,8 @@ def static_spaces(tier):
         sp.append(("B:2pos,n<=3,L<=3,prio", H(0, 3), ["xy"], (0, 1), 1, 3, False))
         sp.append(("C:2pos,n=4,L<=3,prio", H(4, 4), ["xy"], (0, 1), 1, 3, False))
         sp.append(("D:shapes,n<=2,L<=3", H(0, 2), ["x", "xy", "xy?", "x*k", "x*k?"], (0,), 1, 3, False))
-        sp.append(("E:3pos+kw,n<=2,L<=3", H(0, 2), ["xyz", "xy*k", "xy"], (0, 1), 1, 3, False))
+        sp.append(("E:3pos+kw,n<=2,L<=2", H(0, 2), ["xyz", "xy*k", "xy"], (0, 1), 1, 2, False))
+        sp.append(("E3:3pos+kw,n<=1,L=3", H(0, 1), ["xyz", "xy*k", "xy"], (0,), 3, 3, False))
         sp.append(("F:3pos,n=3,L<=2", H(3, 3), ["xyz"], (0, 1), 1, 2, False))
     return sp
 
